@@ -433,6 +433,29 @@ func ruleR37(p *Prog) []Ob {
 				}
 			}
 		}
+		// the tree lives for the whole scan: what was seen is never forgotten half way
+		if len(inserts)+len(searches) > 0 {
+			ob := mk("key-tree-lifetime", p.at(append(inserts, searches...)[0].call))
+			var bad []string
+			for _, op := range append(append([]treeOp{}, inserts...), searches...) {
+				recv := canon(op.call.Common().Value)
+				c, isCall := recv.(*ssa.Call)
+				switch {
+				case !isCall:
+					bad = append(bad, p.at(op.call)+": the key tree used here is not one tree created before the scan (it is "+recv.String()+")")
+				default:
+					if _, loop := innermostLoop(c.Block()); loop != nil {
+						bad = append(bad, p.at(c)+": the key tree is created inside the scan")
+					}
+				}
+			}
+			if len(bad) > 0 {
+				ob.Status, ob.Msg, ob.Path = Violated, "the set of keys seen so far is replaced during the scan: a later message of a forgotten key is taken for the first of its key", uniqSorted(bad)
+			} else {
+				ob.Status, ob.Msg = Discharged, "one key tree, created before the scan, is used throughout"
+			}
+			obs = append(obs, ob)
+		}
 		for i, op := range inserts {
 			ob := mk(fmt.Sprintf("key#%d", i+1), p.at(op.call))
 			guards = nil
